@@ -264,6 +264,9 @@ func (a *activityManager) publishActivityEvent(event *client.ActivityStreamEvent
 		Value:     data,
 		Stream:    activityStream,
 		AckPolicy: a.config.ActivityStream.PublishAckPolicy,
+		// Unconditional publish (matters when concurrency control is enabled
+		// for all streams).
+		ExpectedOffset: -1,
 	})
 	if err != nil {
 		return errors.Wrap(err, "failed to publish event to stream")
